@@ -279,6 +279,23 @@ MUTANTS = [
      [("src/toml.rs", "\t\t\t\t*self = Usage::Used;\n", "")]),
     ("c14-first-keeps-pos", "violations", "C14", "C04", "R04.2", "the cursor pair is rebuilt with pos = 1",
      [("src/yaml/encoding.rs", "\t\tSelf { pos: 0, len }", "\t\tSelf { pos: 1, len }")]),
+    ("c17-position-without-start", "violations", "C17", "C09", "R09.1", "the hand-written replay step moves the cursor to the copied length, not start + length: a second partial replay repeats bytes",
+     [("src/input.rs", "self.prefix.set_position((start + prefix_size) as u64);", "self.prefix.set_position(prefix_size as u64);")]),
+    ("c17-copy-ignores-start", "violations", "C17", "C09", "R09.1", "the hand-written replay step copies from the start of the captured bytes, not from the cursor's position",
+     [("src/input.rs", "let unread = &self.prefix.get_ref()[start..];", "let unread = &self.prefix.get_ref()[..];\n\t\tlet _ = start;")]),
+    ("c17-stale-end", "violations", "C17", "C09", "R09.1", "the end of the capture buffer is measured before the fresh bytes are appended: the cursor stays in front of them and the next read replays them",
+     [("src/input.rs", "\t\tcaptured.extend_from_slice(&buf[..source_size]);\n\t\tlet end = captured.len();\n", "\t\tlet end = captured.len();\n\t\tcaptured.extend_from_slice(&buf[..source_size]);\n")]),
+    # ---- round 17: on top of correct feature additions
+    ("d07-override-starts-as-utf8", "violations", "D07", "C07", "R02.1", "the new explicit-encoding option starts as Some(Utf8) instead of None: detection is bypassed for everybody",
+     [("src/lib.rs", "\t\tTranslator(Dispatcher::new(output, to), None)", "\t\tTranslator(Dispatcher::new(output, to), Some(yaml::Encoding::Utf8))")]),
+    ("d07-no-override-means-utf8", "violations", "D07", "C07", "R02.1", "without an explicit encoding the fast path assumes UTF-8 instead of asking the detector",
+     [("src/yaml.rs", "\tlet from = |b: &[u8]| encoding.unwrap_or_else(|| Encoding::detect(b));", "\tlet from = |_b: &[u8]| encoding.unwrap_or(Encoding::Utf8);")]),
+    ("d18-setter-unclamped", "violations", "D18", "C18", "R18.1", "the new depth setter no longer clamps to the built-in maximum: a caller can raise the limit past 1024 and the recursion guard with it",
+     [("src/lib.rs", "\t\tself.max_depth = Some(depth.min(msgpack::MAX_DEPTH));", "\t\tself.max_depth = Some(depth);")]),
+    ("d18-parser-keeps-builtin-limit", "violations", "D18", "C18", "R18.3", "the size calculator gets the adjustable budget while one rmp_serde deserializer keeps the built-in limit: slice and reader input are judged by different limits",
+     [("src/msgpack.rs", "\t\t\t\tlet mut de = rmp_serde::Deserializer::from_read_ref(next);\n\t\t\t\tde.set_max_depth(depth_limit);", "\t\t\t\tlet mut de = rmp_serde::Deserializer::from_read_ref(next);\n\t\t\t\tde.set_max_depth(DEPTH_LIMIT);")]),
+    ("d09-default-lookahead-1mib", "violations", "D09", "C10", "R10.4", "the now adjustable TOML look-ahead defaults to 1 MiB: xt's own TOML output between 1 and 2 MiB is no longer recognised from a pipe",
+     [("src/input.rs", "pub(crate) const DEFAULT_LOOKAHEAD: usize = 2 * 1024_usize.pow(2);", "pub(crate) const DEFAULT_LOOKAHEAD: usize = 1024_usize.pow(2);")]),
     ("r48-stash-ignored", "violations", "R48", "C12", "R12.2", "the reader's own error is discarded in favour of libyaml's",
      [("src/yaml/chunker/parser.rs", "Some(read_err) => read_err,", "Some(_) => io::Error::new(io::ErrorKind::InvalidData, \"read failed\"),")]),
     ("r49-scratch-tail", "violations", "R49", "C07", "R07.7", "remainder taken from the whole scratch array",
